@@ -160,6 +160,7 @@ class Task:
         self.spin_mark = -1.0
         self.spin_n = 0
         self.spun = False
+        self.in_py_tick = False
         self.timeout_at = None       # armed by gevent_shim.Timeout
         self.timeout_obj = None
         self.greenlet = False
@@ -249,6 +250,7 @@ class Sim:
         self.probes = {}
         self.preempt_at = set()
         self.fine_interleave = 0     # n > 0: after every tick switch with probability 1/n
+        self.py_ticks = False        # True: eval-breaker points inside monitored Python code are ticks too (simkit.preempt)
         self.spin_limit = 2000
         self.spin_cost = 0.02
         self.spin_log = []
@@ -267,6 +269,7 @@ class Sim:
         self.urandom_n = 0
         self.quiet = False
         self.buggify = {}
+        self.stolen = []             # connections 'accepted by a sibling worker' (accept_eagain fault)
         self.short_write = None      # callable(proc, n) -> bytes actually written (storage fault)
         self.on_fork = None          # callable(parent_proc, child_proc, parent_task) -> child continuation
 
